@@ -32,6 +32,7 @@ def LList.WF (l : LList) : Prop := l.length = l.items.length
 
 def Val.WF : Val → Prop
   | .str _ => True
+  | .strNil => True
   | .list l => l.WF
   | .hash h => AList.Sorted h
   | .set s => AList.Sorted s
